@@ -24,7 +24,8 @@ RULE = ('histories over {add / remove / reset plugin (3 plugins x 2 scopes, also
         'add_contract accepts an object <=> it satisfies an active interface; compile results are a function of (source, '
         'active aliases) only; caller dicts are deep-equal to their pre-call copies. non-trivial = a remove or reset '
         'after >= 2 adds, or a compile after another compile; distinct by the operation word.'
-        ' Plugins: plain function, bound method fetched afresh per call, a run-once plugin that removes itself, all consuming the template arguments like ops; run variants: run_script / run_auth_scripts, caller overrides, probe as second script, caller-supplied timestamp; aliases of an ordinary op and of OP_IF; sources with the same macro / variable names and different bodies.')
+        ' Plugins: plain function, bound method fetched afresh per call, a run-once plugin that removes itself, all consuming the template arguments like ops; run variants: run_script / run_auth_scripts, caller overrides, probe as second script, caller-supplied timestamp; aliases of an ordinary op and of OP_IF; sources with the same macro / variable names and different bodies.'
+        ' The machine has a falsy contract object, alias sources right after an explicit OP_PUSH1 / OP_PUSH2, and at every run step writer / reader runs with the cache argument omitted or empty (nothing leaks, the empty dict stays empty).')
 ASSUMPTIONS = ['registries are restored in place (and leaked default-argument state cleared) between histories',
                'expected bytes of the fixed sources are cross-checked against the reference assembler once per worker']
 
@@ -100,7 +101,10 @@ class Con0:
 
 
 class Con1:
-    """satisfies CanBeInvoked only"""
+    """satisfies CanBeInvoked only; an empty container (falsy): presence in a registry is a matter of the id, not of truth"""
+
+    def __len__(self):
+        return 0
 
     def abi(self, args):
         CALLS.append(('c', 1))
@@ -120,6 +124,9 @@ def _blk(b):
 PROBE = (bytes([C['OP_GET_MESSAGE'], 0, C['OP_POP0']]) + push(b'abc') + bytes([C['OP_CHECK_TEMPLATE'], 1, C['OP_POP0']]) +
          b''.join(bytes([C['OP_TRY_EXCEPT']]) + _blk(push(b'\x00') + push(cid) + bytes([C['OP_INVOKE']])) + b'\x00\x00' for cid in CIDS) +
          bytes([C['OP_TRUE']]))
+
+LEAK_W = push(b'\x01') + bytes([C['OP_WRITE_CACHE'], 4]) + b'leak' + b'\x01' + bytes([C['OP_TRUE']])
+LEAK_R = bytes([C['OP_READ_CACHE_SIZE'], 4]) + b'leak'
 
 SOURCES = [
     ('plain', 'push d1 push d2 add_ints d2', bytes([2, 1, 2, 2, C['OP_ADD_INTS'], 2])),
@@ -143,6 +150,8 @@ SOURCES.append(('variables2', '@= v [ x02 ] @v', bytes([2, 2, C['OP_WRITE_CACHE'
 SOURCES.append(('comptime2', 'push ~ { false }', bytes([2, C['OP_FALSE']])))
 SOURCES.append(('alias-block', 'true zzw { dup }', 'alias-block'))
 SOURCES.append(('comptime3', 'push ~ { true true }', bytes([3, 2, C['OP_TRUE'], C['OP_TRUE']])))
+SOURCES.append(('alias-after-push1', 'op_push1 x07 zza', 'alias-push1'))
+SOURCES.append(('alias-after-push2', 'op_push2 x07 zza dup', 'alias-push2'))
 ENTRY = ['compile_script', 'Script.from_src', 'assemble', 'parse_comptime+assemble']
 
 
@@ -285,6 +294,26 @@ class Interp:
         after = (cache, list(contracts), {k: list(v) for k, v in plugins.items()})
         if after != before:
             self.fail('run/caller-dictionary-modified', '%r -> %r' % (before, after))
+        # runs without a cache argument, or with an empty one, start from an empty cache and leave the caller's dict alone
+        for how in ('omitted', 'empty'):
+            d = {}
+            args = () if how == 'omitted' else (d,)
+            try:
+                if via & 2 == 0:
+                    F.run_script(LEAK_W, *args)
+                    st2 = F.run_script(LEAK_R, *args)[1].list()
+                else:
+                    F.run_auth_scripts([LEAK_W], *args)
+                    st2 = [b'\x00'] if F.run_auth_scripts([LEAK_R + bytes([C['OP_NOT']])], *args) else ['seen']
+            except BaseException as e:  # noqa
+                if isinstance(e, (KeyboardInterrupt, SystemExit)):
+                    raise
+                self.fail('run/leak-probe-raises-%s' % type(e).__name__, str(e)[:80])
+                return
+            if st2 != [b'\x00']:
+                self.fail('run/cache-of-an-earlier-run-visible-to-a-later-one', 'cache argument %s: %r' % (how, st2))
+            if d:
+                self.fail('run/caller-dictionary-modified', 'empty cache dict -> %r' % (d,))
         # the probe reaches the signature plugins twice and the template plugins once; a run-once hook is active for the first
         # invocation of its scope only and inactive afterwards
         sig_active = self.plug['signature_extensions']
@@ -312,6 +341,10 @@ class Interp:
             entry = 'assemble'
         if exp == 'alias':
             exp = bytes([C['OP_TRUE'], C['OP_FALSE']]) if ('ZZA' in self.aliases and 'ZZB' in self.aliases) else None
+        if exp == 'alias-push1':
+            exp = bytes([C['OP_PUSH1'], 1, 7, C['OP_TRUE']]) if 'ZZA' in self.aliases else None
+        if exp == 'alias-push2':
+            exp = bytes([C['OP_PUSH2'], 0, 1, 7, C['OP_TRUE'], C['OP_DUP']]) if 'ZZA' in self.aliases else None
         if exp == 'alias-block':
             exp = bytes([C['OP_TRUE'], C['OP_IF'], 0, 1, C['OP_DUP']]) if 'ZZW' in self.aliases else None
         try:
@@ -408,7 +441,9 @@ def alphabets():
                                   ['remi', 1], ['run', 1], ['run', 6], ['run', 7]])
     A['compile+aliases'] = ([['compile', si, ei] for si in range(NBASE) for ei in (0, 2, 3)] + [['compile', 1, 1], ['alias', 0], ['alias', 1]])
     A['aliases-of-block-ops'] = [['alias', 2], ['alias', 0], ['compile', [n for n, _, _ in SOURCES].index('alias-block'), 0],
-                                 ['compile', [n for n, _, _ in SOURCES].index('alias-block'), 1], ['compile', 3, 0]]
+                                 ['compile', [n for n, _, _ in SOURCES].index('alias-block'), 1], ['compile', 3, 0],
+                                 ['compile', [n for n, _, _ in SOURCES].index('alias-after-push1'), 0],
+                                 ['compile', [n for n, _, _ in SOURCES].index('alias-after-push2'), 1]]
     A['compile-purity'] = [['compile', si, ei] for si in range(NBASE, len(SOURCES)) for ei in (0, 1)] + [['compile', 1, 0]]
     return A
 
